@@ -4,6 +4,7 @@ import (
 	"bytes"
 	"context"
 	"fmt"
+	"net/url"
 	"strings"
 
 	"github.com/dpb587/rdfkit-go/encoding"
@@ -169,10 +170,14 @@ func c02GenGraph(r *hx.Rand, maxTriples int) []rdf.Triple {
 }
 
 // wellFormedIRI: what the property means by a well-formed IRI term: absolute, no characters outside RFC 3987
+
 func c02WellFormed(ts []rdf.Triple) bool {
 	ok := func(s string) bool {
-		if !strings.Contains(s, ":") {
+		if !reScheme.MatchString(s) {
 			return false
+		}
+		if _, err := url.Parse(s); err != nil && strings.Contains(s, "[") {
+			return false // a broken IP literal
 		}
 		for _, c := range s {
 			if c <= 0x20 || c == 0x7f || strings.ContainsRune("<>\"{}|^`\\", c) {
